@@ -29,6 +29,7 @@ import (
 	"github.com/buzzfeed/sso/internal/pkg/aead"
 	"github.com/buzzfeed/sso/internal/pkg/sessions"
 	"github.com/buzzfeed/sso/internal/proxy"
+	pprov "github.com/buzzfeed/sso/internal/proxy/providers"
 )
 
 // Engine "proxyflow": the real sso-proxy handler tree (proxy.New from a generated YAML file, wrapped like
@@ -180,8 +181,19 @@ func signerPEM() string {
 	return signerPEMCache
 }
 
-func (w *pfWorld) reply(rw http.ResponseWriter, r pfReply, okStatus int, body func() string) {
+func (w *pfWorld) reply(rw http.ResponseWriter, req *http.Request, r pfReply, okStatus int, body func() string) {
 	switch r.Kind {
+	case "hang":
+		// accept the request and never answer: the caller gives up on its own timeout
+		select {
+		case <-req.Context().Done():
+		case <-time.After(3 * time.Second):
+		}
+		if hj, ok := rw.(http.Hijacker); ok {
+			if c, _, err := hj.Hijack(); err == nil {
+				c.Close()
+			}
+		}
 	case "transport":
 		if hj, ok := rw.(http.Hijacker); ok {
 			c, _, _ := hj.Hijack()
@@ -229,14 +241,14 @@ func newPfWorld(cfg pfCfg) (*pfWorld, error) {
 		}
 		switch ep {
 		case "validate":
-			w.reply(rw, st.Validate, 200, func() string { return "{}" })
+			w.reply(rw, r, st.Validate, 200, func() string { return "{}" })
 		case "refresh":
-			w.reply(rw, st.Refresh, 201, func() string {
+			w.reply(rw, r, st.Refresh, 201, func() string {
 				b, _ := json.Marshal(M{"access_token": st.Refresh.Token, "expires_in": st.Refresh.TTL})
 				return string(b)
 			})
 		case "profile":
-			w.reply(rw, st.Profile, 200, func() string {
+			w.reply(rw, r, st.Profile, 200, func() string {
 				// like the real authenticator: the answer names only groups that were asked about
 				gs := []string{}
 				for _, g := range strings.Split(r.Form.Get("groups"), ",") {
@@ -248,7 +260,7 @@ func newPfWorld(cfg pfCfg) (*pfWorld, error) {
 				return string(b)
 			})
 		case "redeem":
-			w.reply(rw, st.Redeem, 200, func() string {
+			w.reply(rw, r, st.Redeem, 200, func() string {
 				b, _ := json.Marshal(M{"access_token": st.Redeem.Token, "refresh_token": st.Redeem.RTok, "expires_in": st.Redeem.TTL, "email": st.Redeem.Email})
 				return string(b)
 			})
@@ -617,6 +629,10 @@ func (w *pfWorld) step(st *pfStep) M {
 	w.mu.Unlock()
 	rec := httptest.NewRecorder()
 	panicked := ""
+	hangs := st.Validate.Kind == "hang" || st.Refresh.Kind == "hang" || st.Profile.Kind == "hang" || st.Redeem.Kind == "hang"
+	if hangs {
+		pprov.VerifSetHTTPTimeout(350 * time.Millisecond) // the 5 s of http_client.go, shortened for the run
+	}
 	func() {
 		defer func() {
 			if r := recover(); r != nil {
@@ -625,6 +641,9 @@ func (w *pfWorld) step(st *pfStep) M {
 		}()
 		w.handler.ServeHTTP(rec, req)
 	}()
+	if hangs {
+		pprov.VerifSetHTTPTimeout(5 * time.Second)
+	}
 	w.mu.Lock()
 	calls, callInfo, reached := w.calls, w.callInfo, w.reached
 	w.cur = nil
@@ -635,7 +654,7 @@ func (w *pfWorld) step(st *pfStep) M {
 		kindOf := map[string]string{"validate": st.Validate.Kind, "refresh": st.Refresh.Kind, "profile": st.Profile.Kind, "redeem": st.Redeem.Kind}
 		var dd []string
 		for i, c := range calls {
-			if i > 0 && calls[i-1] == c && kindOf[c] == "transport" {
+			if i > 0 && calls[i-1] == c && (kindOf[c] == "transport" || kindOf[c] == "hang") {
 				continue
 			}
 			dd = append(dd, c)
